@@ -72,3 +72,8 @@ CHECKS["C05"] = {
          "exists, through the real engine with the resolver overridden at its documented override point; call count, handle bytes/labels and the statement's outcome table are checked "
          "on both final trees.",
  "technique": "bounded exhaustive exploration; resolver behaviour, content pair and schedule are z3 integer choices enumerated by solver-decided branching over the real engine; outcome-table oracle"}
+CHECKS["C06"] = {
+ "text": "Exhaustive bounded exploration with solver-enumerated choices (M2): operation, 0..2 (0..4) engine steps, stop at that boundary, 1 (2) operations while stopped, three storage "
+         "variants (intact, cursor removed, cursor rejected), restart over the same storage and accounts through the real engine. Convergence / no re-transfer / no conflict artefacts "
+         "with intact storage; with a lost cursor everything created or modified reaches both sides through the walk fallback.",
+ "technique": "bounded exhaustive exploration; operations, stop point and storage damage are z3 integer choices enumerated by solver-decided branching over the real engine restarted on persisted storage; convergence/no-retransfer/walk-fallback oracles"}
